@@ -171,25 +171,29 @@ CLAIMED = {
     technique="Coq proof of the special-value tables and absence of other panics + exhaustive class-table correspondence"),
  "C06": dict(
     category="proof",
-    text="Coq theorems (Props/C06.v, 21 closed): the algorithmic models of decBasicMul, Karatsuba (incl. the deliberately dropped "
+    text="Coq theorems (Props/C06.v and C06b.v, all closed): the algorithmic models of decBasicMul, Karatsuba (incl. the deliberately dropped "
          "carries), mul, basicSqr, karatsubaSqr, sqr, divW, divBasic (Knuth D with the two-word quotient-digit refinement and the "
          "wrapping add-back) and divLarge's normalisation equal the value-level product/square/quotient/remainder for ALL "
-         "lengths, contents and threshold values; div equals (u/v, u mod v) whenever the divisor is below the recursive "
-         "threshold. divRecursive (divisors of 100+ words) has no closed theorem and is decided by correspondence only. "
+         "lengths, contents and threshold values; divRecursive / divRecursiveStep (divisors of 100+ words) return u = q*v + r with "
+         "0 <= r < v for every recursion depth, so div equals (u/v, u mod v) for ALL divisor lengths, for every Karatsuba threshold "
+         ">= 1 and every recursive-division threshold >= 4 (the shipped 100 is checked against the regenerated constant). Proving "
+         "this exposed defect F21 (final shift B instead of B-1; Quo panicked), repaired in /repo; the unrepaired step is refuted "
+         "by a kernel-computed witness in the same file. "
          "The models are tied to dec.go by a differential run through build-tag hooks with swept thresholds and a poisoned "
          "scratch pool.",
     design_ref="DESIGN.md section 6 C06",
     note="Trusted: Coq kernel; hand-written L2 models validated by differential runs (ndriver/nrunner); word kernels taken at "
-         "value level (C07). divRecursiveStep, shl/shr/digit/sticky and the radix conversions are correspondence-only.",
+         "value level (C07). shl/shr/digit/sticky and the radix conversions are correspondence-only; one slice-capacity side condition of decAddAt in the blocks loop is argued on paper only.",
     technique="Coq proof of algorithmic = value-level natural-number routines for all sizes/thresholds + correspondence"),
  "C07": dict(
     category="proof",
     text="Coq theorems (Props/C07.v): the Gallina mirrors of the portable *_g kernels (explicit uint64 wrap-around, "
          "Granlund-Montgomery div10W, magic-number division over the generated table) equal the mathematical kernel "
-         "specifications for all lengths and contents, and for the assembly routines whose proofs are closed, running the "
-         "instruction list that tools/asm2coq.py regenerates from dec_arith_amd64.s in the Coq x86-64 interpreter yields the "
-         "same result for all inputs; the kernels without a closed assembly theorem are listed in Props/C07.v and are decided "
-         "by correspondence: interpreter-on-generated-program vs the real CPU vs the _g twin vs the specification, plus "
+         "specifications for all lengths and contents, and for ALL fourteen assembly routines (add10VW/sub10VW in Props/C07b.v, "
+         "including the 2^64 hardware-carry fold and the tail-jump into the copy loop) running the instruction list that "
+         "tools/asm2coq.py regenerates from dec_arith_amd64.s in the Coq x86-64 interpreter yields the same carry/borrow/remainder "
+         "and memory for all inputs; the digit helpers (decDigits64, nlz10, trailingZeroDigits) are tied by correspondence only. "
+         "Every kernel is additionally decided by correspondence: interpreter-on-generated-program vs the real CPU vs the _g twin vs the specification, plus "
          "whole-library transcripts under the three build-tag configurations.",
     design_ref="DESIGN.md section 6 C07",
     note="Trusted: Coq kernel; asm2coq/go2coq translators; the x86-64 subset semantics of L1/X86.v (validated only against the "
